@@ -419,12 +419,13 @@ def _bad_param_call(fit, case, names, spec):
     d = np.asarray(spec["y"] if spec["type"] == "xy" else spec["data"], float).copy()
     j = case["pos"] % len(d)
     d[j] = -1.0 - d[j] if case["poisson_bad"] == "negative" else d[j] + 0.5
+    as_int = case["poisson_bad"] == "negative" and case.get("pos", 0) % 2 == 1  # counts stored as integers (negative ones are just as impossible)
     if spec["type"] == "xy":
         new = [np.asarray(spec["x"], float), d]
         if case["data_as"] == "container":
-            new = kafe2.XYContainer(new[0], new[1])
+            new = kafe2.XYContainer(np.round(new[0]).astype(int), np.round(new[1]).astype(int), dtype=int) if as_int else kafe2.XYContainer(new[0], new[1])
     else:
-        new = d if case["data_as"] == "array" else kafe2.IndexedContainer(d)
+        new = (np.round(d).astype(int) if as_int else d) if case["data_as"] == "array" else (kafe2.IndexedContainer(np.round(d).astype(int), dtype=int) if as_int else kafe2.IndexedContainer(d))
 
     def thunk():
         fit.data = new
@@ -598,12 +599,17 @@ def run_construct(case):
         j = pos % n
         d[j] = -1.0 - d[j] if case["poisson_bad"] == "negative" else d[j] + 0.5
         ft = "xy" if case["fit_type"] == "xy" else "indexed"
+        as_int = case["poisson_bad"] == "negative" and pos % 2 == 1  # counts handed over in an integer-typed container
         if ft == "xy":
             f = M.xy_function("line")[0]
-            mk = lambda: kafe2.XYFit([np.arange(n, dtype=float), d], f, cost_function="nll")  # noqa: E731
+            dat = kafe2.XYContainer(np.arange(n), d.astype(int), dtype=int) if as_int else [np.arange(n, dtype=float), d]
+            mk = lambda: kafe2.XYFit(dat, f, cost_function="nll")  # noqa: E731
         else:
             f = M.indexed_function(n, 2)[0]
-            mk = lambda: kafe2.IndexedFit(d, f, cost_function="nll")  # noqa: E731
+            dat = kafe2.IndexedContainer(d.astype(int), dtype=int) if as_int else d
+            mk = lambda: kafe2.IndexedFit(dat, f, cost_function="nll")  # noqa: E731
+        if as_int:
+            labels.add("integer_dtype")
         exc = _must_raise(tag, f"{ft} fit with Poisson likelihood on data with a {case['poisson_bad']} entry", mk)
         labels.add(case["poisson_bad"])
     labels.add(f"raises_{exc}")
